@@ -29,6 +29,28 @@ for tab, pre in ((kernels.KERNELS, "K|"), (kernels.LEAVES, "L|")):
             sg = kernels.deep_sig(prog, fs[0])
             if sg:
                 deep[pre + nm] = sg
+# deep forms of the direct callers of every snapshot helper: a helper whose contract changed (split into phases, a flag replaced by
+# an enum, a parameter passed by reference ...) is still the reviewed behaviour when every caller's deep form is unchanged
+ncall = 0
+for fid in snap:
+    f = live.get(fid)
+    if f is None:
+        continue
+    cl = []
+    for g in snapshot.callers_of(prog, f):
+        gid = snapshot.fn_id(g)
+        key = "C|" + gid
+        if key not in deep:
+            if len(g.blocks) > 150 or snapshot._has_loop(g):
+                continue          # large / looping callers have no meaningful path table: the fallback is simply not available for them
+            sg = kernels.deep_sig(prog, g, budget=3.0)
+            if not sg:
+                continue
+            deep[key] = sg
+            ncall += 1
+        cl.append(gid)
+    deep["CALLERS|" + fid] = sorted(set(cl))
+print(ncall, "caller deep forms")
 json.dump(deep, open(kernels.DEEP_FILE, "w"), indent=1, sort_keys=True)
 print(len(deep), "deep forms")
 from collections import Counter
